@@ -364,7 +364,82 @@ def t_shift(ctx):
     ctx.oblige("post", "cutout.pixel_rc_is_image_pixel_xmin_plus_r_ymin_plus_c",
                And(idata.at((a_, b_)) == data.at((x0 + a_, y0 + b_)),
                    Sym(Sym.lift(idata.isnan((a_, b_))) == Sym.lift(data.isnan((x0 + a_, y0 + b_))))))
+    # the cut-out is masked in place later on (idata[mask] = nan): it must not be a view of the image shared by all islands
+    ctx.oblige("post", "cutout.is_a_copy_not_a_view_of_the_image", getattr(idata, 'view_of', None) is None)
     ctx.oblige("post", "cutout.components_count_is_number_accepted", Sym(Sym.lift(P.ncomp) == Sym.lift(i)) if isinstance(P.ncomp, (int, Sym)) else False)
+
+
+# ---------------------------------------------------------------------------
+# the "is there any data under this component" test
+# ---------------------------------------------------------------------------
+
+def t_notfit(ctx):
+    reset_uids()
+    fn, loop = island_loop()
+    cands = [st for st in loop.body if isinstance(st, ast.For) and "params['components']" in unparse(st.iter)
+             and any(isinstance(n_, ast.Assign) and unparse(n_.targets[0]) == 'square' for n_ in ast.walk(st))]
+    if len(cands) != 1:
+        raise Undecided("_refit_islands: the per-component data test loop was not found")
+    inner = cands[0]
+    R_, C_ = Sym(z3.Int('cut_rows')), Sym(z3.Int('cut_cols'))
+    ctx.assume(And(R_ >= 1, C_ >= 1))
+    idata = SArr.fresh("cutout", (R_, C_), with_nan=True)
+    ncomp = Sym(z3.Int('ncomp'))
+    ctx.assume(ncomp >= 1)
+    P = AddParams('P', ncomp)
+    P.flagword = lambda i: FlagWord(z3.BitVecVal(0, FlagWord.W))
+    st = {}
+    anyres = []
+
+    def m_any(c, x):
+        st['any_arg'] = x
+        v = c.free_branch()
+        anyres.append(v)
+        return v
+
+    def m_isfinite(c, x):
+        st['square'] = x
+        return ('finite', x)
+
+    def m_clip(c, v, lo, hi):
+        return lib.m_clip(c, v, lo, hi)
+    g = {'np': lib.std_np(any=Model(m_any), isfinite=Model(m_isfinite), nan=NaN), 'flags': Namespace('flags', NOTFIT=16, FIXED2PSF=4)}
+
+    def before(c, env, k):
+        del anyres[:]
+        st.pop('square', None)
+        st['w0'] = {f: len(w) for f, w in P.writes.items()}
+        st['cx'], st['cy'] = P.sym('value', k, 'xo'), P.sym('value', k, 'yo')
+
+    def after(c, env, k):
+        sq = st.get('square')
+        ok = isinstance(sq, SArr) and getattr(sq, 'view_axes', None) is not None and len(anyres) == 1 and \
+            isinstance(st.get('any_arg'), tuple) and st['any_arg'][1] is sq
+        c.oblige("post", "notfit.data_test_looks_at_a_box_of_the_cut_out", ok)
+        if not ok:
+            return
+        ax = sq.view_axes
+        cx, cy = st['cx'], st['cy']
+        # the component's own pixel (when it lies on the cut-out) is inside the box, and the box never wraps around
+        for a_, cen, n_, nm in ((ax[0], cx, R_, 'rows'), (ax[1], cy, C_, 'columns')):
+            lo, cnt = a_.start, a_.count
+            c.oblige("post", "notfit.box_is_within_the_cut_out_and_holds_the_components_pixel.%s" % nm,
+                     And(lo >= 0, lo + cnt <= n_,
+                         Implies(And(cen >= 0, cen <= n_ - 1), And(lo <= b_round(c, cen), b_round(c, cen) < lo + cnt))),
+                     timeout_ms=60000)
+        flagged = any(len(w) != st['w0'][f] for f, w in P.writes.items())
+        c.oblige("post", "notfit.component_is_switched_off_exactly_when_its_box_holds_no_data", flagged == (anyres[0] is False))
+        if flagged:
+            c.oblige("post", "notfit.switched_off_component_is_fixed_with_nan_amplitude_and_flagged",
+                     And(*[Not(P.sym('vary', k, pn)) for pn in PNAMES[:6]]) if any(isinstance(w[2], NaNType) for w in P.writes['value'][st['w0']['value']:]) else False)
+    spec = LoopSpec(lambda c, env, k: [], label="data_test", modifies=lambda c, env: [P],
+                    types={'i': 'int', 'xmx': 'int', 'xmn': 'int', 'ymx': 'int', 'ymn': 'int'})
+    spec.before_body, spec.after_body = before, after
+    ctx.interp.loops["for i in range(int(params['components'].value))"] = spec
+    env = {'self': Obj('self', log=Namespace('log')), 'idata': idata, 'params': P}
+    out = run_stmts(ctx, FILE, QN, [inner], env, globals_=g, region_desc="per component: is there data under it (else NOTFIT)")
+    if out.kind == 'raise':
+        ctx.oblige("safe", "notfit.no_exception", False)
 
 
 # ---------------------------------------------------------------------------
@@ -580,6 +655,7 @@ def verify(S):
     targets = [("cluster.resize", t_resize),
                ("source_finder.SourceFinder._refit_islands[placement]", t_placement),
                ("source_finder.SourceFinder._refit_islands[shift]", t_shift),
+               ("source_finder.SourceFinder._refit_islands[data_test]", t_notfit),
                ("source_finder.SourceFinder._refit_islands[copy_back]", t_copy_back)]
     for name, fn in targets:
         if S.only and S.only not in name:
